@@ -36,7 +36,16 @@ RULE = ("circuits of 1-5 blocks over 9 block kinds (probe SBlock, probe AddonMai
         "cause, before and after the initialisation is complete; the helper task of wait_init() is looked for among ALL "
         "tasks of the loop (by its coroutine) just before / right after the outside cancellation and at the end; "
         "a storage whose __setitem__ (and pop) raise from the moment the circuit has recorded its error, with every "
-        "cause and circuit shape that has a persistent block; a case is distinct by its (input lines, trace) hash, non-trivial when at least one block was started")
+        "cause and circuit shape that has a persistent block; "
+        "init_async / stop_async coroutines and supporting coroutines of run() whose cancellation needs 1-7 further loop "
+        "iterations or 1-2 ms (listed before and after the coroutine that ends or fails); a SECOND termination cause 2-152 ms "
+        "after the first, i.e. during the clean-up: the task awaiting shutdown() is cancelled, a supporting coroutine that "
+        "itself awaits shutdown() is cancelled by run() because another one returns / fails, abort(), SIGTERM, another shutdown(); "
+        "stop_async ending with a CancelledError of its own; OutputFunc -> OutputFunc on_success chains with stop_data on both "
+        "(both stop orders forced as above); start() faults before AND after super().start() on sync / AddonMainTask / AddonAsync "
+        "probes at every position; main-task blocks with stop_timeout 0; besides the task list taken six loop iterations "
+        "after the end, a snapshot of edzed's tasks and timers at the very moment run() returns / the simulation task finishes; "
+        "a case is distinct by its (input lines, trace) hash, non-trivial when at least one block was started")
 ASSUMPTIONS = [
     "instants of different origin never coincide (durations = 0 mod 10 ms and pairwise distinct, time-outs = 3, "
     "requests = 5, main task failures = 7 mod 10 ms; 0 = the yield after the start loop)",
@@ -1028,6 +1037,13 @@ def oracle_run(scn, r):
             out.append({'clause': 'stop_async_awaited_bounded',
                         'what': f'{nm(k)}: stop_async ended {seq[2][2] - t_clean} ms after the clean-up began, '
                                 f'longest stop_timeout is {max_to} ms'})
+    for kind, k, _x, t in log:
+        if kind == 'main-cancelled-twice' and t_clean is not None and t - t_clean < scn['blocks'][k].get('sto', 0):
+            # the stop_async that was awaiting the cancelled main task was itself cancelled before its stop_timeout
+            out.append({'clause': 'stop_async_awaited_bounded',
+                        'what': f'{nm(k)}: stop_async was cancelled {t - t_clean} ms after the clean-up began while it awaited '
+                                f"its main task; stop_timeout is {scn['blocks'][k].get('sto')} ms",
+                        'sig': own_cancel_shape(True)})
     if t_clean is not None and r['end_ms'] - t_clean > max_to:
         out.append({'clause': 'stop_async_awaited_bounded',
                     'what': f'clean-up took {r["end_ms"] - t_clean} ms, longest stop_timeout is {max_to} ms'})
